@@ -19,6 +19,7 @@ func HC01_randdataCompiles() {
 		"type T struct {\n\tE Mode\n\tHidden Mode `gomacro-data:\"ignore\"`\n\tu int\n}\n\ntype Mode string\n\nconst (\n\tOn Mode = \"on\"\n\toff Mode = \"off\"\n)\n",
 		"type T struct {\n\tS Shape\n\tL []Shape\n\tN Named\n}\n\ntype Named map[lib.ID][2]float64\n\ntype Shape interface{ isShape() }\n\ntype Circle struct{ R int8 }\n\nfunc (Circle) isShape() {}\n\ntype square struct{ W uint16 }\n\nfunc (square) isShape() {}\n",
 		"type T struct {\n\tNext *T\n\tKids []T\n\tF float64\n\tG int32\n}\n",
+		"type T struct {\n\tBase\n\tinner\n\tName string\n}\n\ntype Base struct {\n\tID int\n\tTags []string\n}\n\ntype inner struct{ Flag bool }\n",
 		"type T struct {\n\tAt time.Time\n\tTs []time.Time\n\tP *time.Time\n\tM map[string]time.Time\n\tD Day\n\tDs []Day\n}\n\ntype Day time.Time\n\nvar _ time.Time\n",
 	}
 	src := "package p\n\nimport (\n\t\"time\"\n\n\t\"example.com/mod/lib\"\n)\n\nvar _ lib.ID\nvar _ time.Time\n\n" + bodies[vfChoice("body", len(bodies))]
